@@ -249,13 +249,19 @@ def clause5_refusals(ctx, P, cg):
     views = Q.path_views(ctx, P, cf)
     checks = {"zero": False, "max": False, "add_matchers": False, "not-object": False}
     limit = P.facts["meta"]["cmake_defs"]
+    count_t = None
+    for c in cf.calls("alloc_fetch"):
+        if P.const_int(c.a[2]) is None:
+            count_t = P.term(cf, c.a[2])
+    if count_t is None:
+        raise AnalysisBroken("create_fetch: matcher count passed to alloc_fetch not found")
     for v in views:
         if not v.ret_is_null():
             continue
         for (a, p) in v.atoms:
-            if a[0] == "cmp" and a[3] == ("const", 0) and a[2][0] == "phi" and Q._poleq(a, p):
+            if a[0] == "cmp" and a[3] == ("const", 0) and a[2] == count_t and Q._poleq(a, p):
                 checks["zero"] = True
-            if a[0] == "cmp" and a[1] == "ugt" and a[2][0] == "phi" and a[3][0] == "const" and p:
+            if a[0] == "cmp" and a[1] == "ugt" and a[2] == count_t and a[3][0] == "const" and p:
                 checks["max"] = True
                 MAXM = a[3][1]
             if a[0] == "cmp" and Q.is_call_to(a[2], "add_matchers") and a[1] == "slt" and p:
@@ -271,8 +277,8 @@ def clause5_refusals(ctx, P, cg):
             continue
         names = [P.srcname_of(i.callee) for _, i in v.calls() if i.callee]
         if "add_matchers" in names:
-            okp = v.has_atom(lambda a, p: a[0] == "cmp" and a[1] == "ugt" and a[3][0] == "const" and not p) and \
-                v.has_atom(lambda a, p: a[0] == "cmp" and a[3] == ("const", 0) and a[2][0] == "phi" and not Q._poleq(a, p))
+            okp = v.has_atom(lambda a, p: a[0] == "cmp" and a[1] == "ugt" and a[2] == count_t and a[3][0] == "const" and not p) and \
+                v.has_atom(lambda a, p: a[0] == "cmp" and a[3] == ("const", 0) and a[2] == count_t and not Q._poleq(a, p))
             if not okp:
                 bad = v
     ctx.ob("C16.5 R-GATE", cf, "success-implies-bounds", bad is None, "a fetch with a rule is created without the 0 < n <= max test",
